@@ -323,23 +323,26 @@ def Routes.find {H : Type} [DecidableEq H] (r : Routes H) (key : MsgKey H) : Opt
 def Routes.set {H : Type} [DecidableEq H] (r : Routes H) (key : MsgKey H) (st : VState) : Routes H :=
   (key, st) :: r.filter (fun e => e.1 ≠ key)
 
+/-- The validator a unit with message key `key` is handed to: the running subprocessor's, or a
+fresh one (`createSubprocessor`: needs `ShardIndexForPublisher(key.Publisher)` to succeed). -/
+def routeState {H : Type} [DecidableEq H] (s : Sched) (r : Routes H) (key : MsgKey H) :
+    Except VErr VState :=
+  match r.find key with
+  | some st => .ok st
+  | none => match s.shardIndexFor key.publisher with
+    | .error _ => .error .route
+    | .ok _ => .ok VState.fresh
+
 /-- `Processor.ProcessMessage` → subprocessor → `validator.Validate`: the unit goes to the
-validator of its message key; a new key gets a fresh validator for `key.Publisher`, provided
-`ShardIndexForPublisher(key.Publisher)` succeeds. Returns the new routes and the verdict. -/
+validator of its message key; a new key gets a fresh validator for `key.Publisher`. Returns the
+new routes and the verdict. -/
 def deliver {H : Type} [DecidableEq H] (cfg : Cfg) (f : HashFns H) (sg : SigScheme H) (s : Sched)
     (r : Routes H) (u : PUnit H) (sender : Bytes) : Routes H × Except VErr Unit :=
-  let key := keyOf u
-  let st? : Except VErr VState :=
-    match r.find key with
-    | some st => .ok st
-    | none => match s.shardIndexFor key.publisher with
-      | .error _ => .error .route
-      | .ok _ => .ok VState.fresh
-  match st? with
+  match routeState s r (keyOf u) with
   | .error e => (r, .error e)
   | .ok st =>
-    match validate cfg f sg s key.publisher st u sender with
-    | .error e => (r.set key st, .error e)
-    | .ok st' => (r.set key st', .ok ())
+    match validate cfg f sg s (keyOf u).publisher st u sender with
+    | .error e => (r.set (keyOf u) st, .error e)
+    | .ok st' => (r.set (keyOf u) st', .ok ())
 
 end Juno.C19
